@@ -551,10 +551,19 @@ def thread_manager(fb):
         mb = daemon_main(fb)
         if mb is not None:
             # the entry point main hands control to: a daemon-library function main calls that (transitively) spawns threads
-            for _, _, fn in user_calls(mb):
-                nb = fb.body(mir.callee_name(fn)) if fn else None
-                if nb is not None and nb.crate.name == DAEMON and nb.defkind != 'Closure' and reaches_call(fb, nb, is_spawn):
-                    return nb
+            # (main may get there through helpers of its own crate: `main -> start(cli) -> thread_manager::run`)
+            work, seen_ = [mb], {mb.path}
+            while work:
+                cur = work.pop(0)
+                for _, _, fn in user_calls(cur):
+                    nb = fb.body(mir.callee_name(fn)) if fn else None
+                    if nb is None or nb.defkind == 'Closure' or nb.path in seen_:
+                        continue
+                    seen_.add(nb.path)
+                    if nb.crate.name == DAEMON and reaches_call(fb, nb, is_spawn):
+                        return nb
+                    if nb.crate.name == mb.crate.name:
+                        work.append(nb)
         cands = [b for b in fb.bodies(DAEMON) if b.defkind != 'Closure' and
                  any(fn and is_spawn(mir.callee_name(fn)) for _, _, fn in user_calls(b))]
         return cands[0] if cands else None
